@@ -257,3 +257,9 @@ def run(rep, tier):
         rep.call(rules, rep, prog)
         rep.call(inside, rep, prog, "C15.inside")
         rep.call(formulas.fit_formula, rep, prog, "C15.formula")
+        # integer arithmetic on the way to the fitted box must not wrap (a wrapped product in a
+        # ratio test selects the wrong box in release builds and panics in debug builds)
+        from . import c03
+        n = rep.call(c03.arith, rep, prog, "C15.arith",
+                     only=lambda f: f.name.endswith("ResizeOptions::get_crop_box")
+                     or "CropBox::fit_src_into_dst_size" in f.name) or 0
